@@ -26,7 +26,7 @@ func init() {
 		rng := rand.New(rand.NewSource(seed*811 + 10))
 		reps := 1
 		if tier == "thorough" {
-			reps = 25
+			reps = 80
 		}
 		for r := 0; r < reps; r++ {
 			for _, dir := range []string{"forward", "reverse"} {
